@@ -229,15 +229,18 @@ struct server {
 		delete srv; srv=0;
 		unlink((sockdir+"/scgi.sock").c_str()); unlink((sockdir+"/fcgi.sock").c_str()); rmdir(sockdir.c_str());
 	}
-	// wait until the loop thread and the worker thread have drained what was queued so far
+	// Quiescence: one round = the loop thread ran a functor posted now (so it completed at least one full iteration:
+	// queue drained, poll, ready descriptors queued) and after that the single worker thread ran a job posted now
+	// (so every job the loop dispatched before is finished).  A chain of k asynchronous hops needs k rounds; readiness
+	// caused by what the client already did (data, FIN, RST on loopback / unix sockets) is kernel state before round 1.
 	void barrier(int rounds=2)
 	{
 		for(int r=0;r<rounds;r++) {
 			std::mutex m; std::condition_variable cv; int done=0;
 			srv->post([&]{ std::lock_guard<std::mutex> g(m); done|=1; cv.notify_all(); });
+			{ std::unique_lock<std::mutex> lk(m); cv.wait_for(lk,std::chrono::seconds(20),[&]{ return (done&1)!=0; }); }
 			srv->thread_pool().post([&]{ std::lock_guard<std::mutex> g(m); done|=2; cv.notify_all(); });
-			std::unique_lock<std::mutex> lk(m);
-			cv.wait_for(lk,std::chrono::seconds(10),[&]{ return done==3; });
+			{ std::unique_lock<std::mutex> lk(m); cv.wait_for(lk,std::chrono::seconds(20),[&]{ return done==3; }); }
 		}
 	}
 	// a connected pair: .first = client end, .second = descriptor served by the front-end `proto`
